@@ -75,6 +75,20 @@ def build(chk):
     chk.add(ob('O4.accessors', 'h_accessors', 'ReadOnly/Writable Direct/Masked access classes read and write exactly the i-th selected element; the wrong kind is refused', bounds=B))
     chk.add(ob('O4.match_dimension', 'h_match_dimension', 'match_dimension accepts equal lengths (non-strict: also the unmasked length of a masked reference) and raises otherwise', bounds=B))
     chk.add(ob('O4.makeReadOnly', 'h_make_readonly', 'makeReadOnly clears writable() and leaves the data alone', bounds=B))
+    # ---- FixedArray2D
+    e2d = EngB(chk, 'pyarray2d', py=True, validate=False)
+    e2d.variant('exact')
+    N2D = 2 if chk.tier != 'thorough' else 3
+    B2D = 'every valid FixedArray2D<int> with lengths <= %d per dimension, element stride 1..2, row pitch lx..lx+1, arbitrary contents; per dimension an integer index in -4..4 or a forward slice (start/stop -4..4, step 1..3)' % N2D
+    B2D = 'every valid FixedArray2D<int> with lengths <= %d per dimension, element stride 1..2, row pitch lx..lx+1, arbitrary contents; per dimension an integer index in -3..3 or a forward slice (start/stop -3..3, step 1..2)' % N2D
+    chk.add(e2d.ob('O7.FixedArray2D.getitem', 'c19/array2d.c', 'h_2d_getitem', 'FixedArray2D<int>: a[i,j] reads the element a nested Python list selects, negative indices included; out of range raises IndexError', defines=('N=%d' % N2D,),
+                   unwind=2 * (N2D + 1) * N2D + 2, timeout=600, bounds=B2D, extra=('--pointer-overflow-check',), backends=('kissat', 'minisat', 'cadical')))
+    for hn, what in (('setitem_scalar', 'a[xs,ys] = v writes exactly the elements selected by the two forward slices / integers'),
+                     ('setitem_vector', 'a[xs,ys] = b assigns element-wise when the shapes match, else raises and writes nothing')):
+        for kinds, kn in ((1, 'int_slice'), (2, 'slice_int'), (3, 'int_int')):
+            chk.add(e2d.ob('O7.FixedArray2D.%s.%s' % (hn, kn), 'c19/array2d.c', 'h_2d_' + hn, 'FixedArray2D<int>: ' + what + ' (index kinds: %s)' % kn.replace('_', ', '), defines=('N=%d' % N2D, 'KINDS=%d' % kinds),
+                           unwind=2 * (N2D + 1) * N2D + 2, timeout=900, bounds=B2D, extra=('--pointer-overflow-check',), backends=('kissat', 'minisat', 'cadical'), core=(kinds == 3)))
+    chk.outside += ['FixedArray2D with slices in BOTH dimensions at once: CBMC reports an unwinding-assertion failure on the translated nested do-while loops although the trace shows two iterations (not understood; the obligation is not registered); each dimension\'s slice is decided separately with an integer in the other', 'FixedArray2D masks, FixedMatrix']
     # ---- buffer interface
     eb = EngB(chk, 'pybuffer', py=True, validate=False)
     eb.variant('exact', only=['w_buf_describe_' + t for t in ('i', 'f', 'd', 's', 'v2f', 'v3f', 'v4d', 'v3i')])
